@@ -68,9 +68,10 @@ def prog(env, case):
     del _WEIGHTS[:]
     spec = dict(case['spec'])
     backend = case['backend']
+    requested = case.get('requested', backend)      # name handed to PEP.solve (an unavailable package falls back on cvxpy)
     h = case['heuristic']
     mode = case['mode']
-    tag = "C14:%s:%s:%s" % (backend, h, mode)
+    tag = "C14:%s:%s:%s" % (backend if requested == backend else "fallback", h, mode)
     spec['backend'] = backend
     if env.sym:
         cstub = CvxStub(env).install()
@@ -82,7 +83,7 @@ def prog(env, case):
     pep = m.pep
     tol = env.real("tol", lo=0)
     reg = env.real("reg", lo=0, lo_strict=True)
-    tau, err = pipeline.safe_solve(env, pep, tag, wrapper=backend, verbose=0, return_primal_or_dual=mode,
+    tau, err = pipeline.safe_solve(env, pep, tag, wrapper=requested, verbose=0, return_primal_or_dual=mode,
                                    dimension_reduction_heuristic=h, tol_dimension_reduction=tol, eig_regularization=reg)
     if err:
         return err
@@ -257,6 +258,10 @@ def cases(tier):
                         continue
                     cs.append(dict(id="%s-%s-%s-%s" % (mname, h, be, mode), spec=spec, heuristic=h, backend=be, mode=mode,
                                    input_zero_tests='generic', output_branches='first'))
+    # the options must also be honoured when the requested back-end is unavailable and PEP.solve falls back on cvxpy
+    for h in ('trace', 'logdet1'):
+        cs.append(dict(id="gd-%s-fallback-primal" % h, spec=dict(fclass='ssc', steps=['grad']), heuristic=h, backend='cvxpy',
+                       requested='zz_not_a_package', mode='primal', input_zero_tests='generic', output_branches='first'))
     cs.append(dict(id="tiny-trace-cvxpy-dual", spec=dict(tiny=True, fclass='smooth', metrics=1), heuristic='trace',
                    backend='cvxpy', mode='dual', check_trace_decrease=False, input_zero_tests='generic',
                    output_branches='first', timeout_ms=600000))
